@@ -481,6 +481,18 @@ func (e *Engine) stdStub(full string, c *ast.CallExpr, recv *Value, args []Value
 		r := e.havocValue("err", sig.Results().At(0).Type())
 		e.assume(st.pc, not(eq(sx("i_tid", r.T), "0")))
 		return []Value{r}, true
+	case "strings.Contains", "bytes.Contains", "strings.ContainsRune", "bytes.ContainsRune", "strings.ContainsAny", "bytes.ContainsAny":
+		note(full + ": a true result implies the haystack is at least as long as the needle (non-empty for the rune/any forms)")
+		res := e.pureUF(full, sig, recv, args, st)
+		_, _, l1 := e.bytesOf(st, args[0])
+		need := e.ilit("1")
+		if strings.HasSuffix(full, ".Contains") {
+			_, _, need = e.bytesOf(st, args[1])
+		}
+		if e.bound == 0 {
+			e.assume(st.pc, implies(res[0].T, e.le(need, l1)))
+		}
+		return res, true
 	case "strings.ToLower", "strings.ToUpper", "strings.TrimSpace", "strings.Trim", "strings.TrimLeft", "strings.TrimRight", "strings.TrimPrefix", "strings.TrimSuffix", "bytes.TrimSpace":
 		res := e.pureUF(full, sig, recv, args, st)
 		if strings.Contains(full, "Trim") {
@@ -509,6 +521,8 @@ func (e *Engine) stdStub(full string, c *ast.CallExpr, recv *Value, args []Value
 			}
 		}
 		return out, true
+	case "io.WriteString":
+		return e.writerWrite(c, args[0], args[1], st), true
 	case "sort.Strings", "sort.Slice", "sort.Sort", "sort.Ints", "sort.SliceStable", "sort.Stable", "slices.Sort", "slices.SortFunc":
 		note(full + ": permutes the slice in place (contents havocked; length unchanged)")
 		if len(args) > 0 {
@@ -678,7 +692,7 @@ func (e *Engine) ifaceStubMods(c *ast.CallExpr) ([]string, bool) {
 	}
 	rt := types.TypeString(sel.Recv(), nil)
 	if isWriterType(rt) && (se.Sel.Name == "WriteString" || se.Sel.Name == "Write" || se.Sel.Name == "WriteByte") {
-		return []string{"W_out", "W_failed"}, true
+		return []string{"W_out", "W_failed", "W_err"}, true
 	}
 	if se.Sel.Name == "Error" || se.Sel.Name == "String" {
 		return []string{}, true
@@ -707,10 +721,17 @@ func (e *Engine) ifaceStub(c *ast.CallExpr, se *ast.SelectorExpr, recv Value, ar
 func (e *Engine) writerWrite(c *ast.CallExpr, w Value, data Value, st *State) []Value {
 	e.stubsUsed["io.Writer/strWriter Write*: requires the writer has not failed; err==nil => output extended by exactly the bytes, n==len; err!=nil => writer marked failed (abstract writer contract)"] = true
 	e.declareWriterTheory()
-	key := sx("i_val", w.T)
+	key := e.writerKey(w)
 	outS := "(Array Int BSeq)"
 	fs := "(Array Int Bool)"
 	ho := e.heapGet(st, "W_out", outS)
+	if e.infallibleWriter(w) {
+		// *strings.Builder / *bytes.Buffer: writes always succeed
+		e.stubsUsed["strings.Builder/bytes.Buffer writes: never fail (error result nil)"] = true
+		arr, off, ln := e.bytesOf(st, data)
+		e.heapSet(st, "W_out", outS, sx("store", ho, key, sx("cat", sx("select", ho, key), sx("bseq", arr, off, e.add(off, ln)))))
+		return []Value{{ln, types.Typ[types.Int]}, e.zero(types.Universe.Lookup("error").Type())}
+	}
 	hf := e.heapGet(st, "W_failed", fs)
 	e.obligeNamed(st, fmt.Sprintf("pre:write-after-failure#%d", e.callSite("write")), "pre", not(sx("select", hf, key)), c.Pos(), "no write after a failed write", e.c.Opts["writerprop"])
 	arr, off, ln := e.bytesOf(st, data)
@@ -722,11 +743,42 @@ func (e *Engine) writerWrite(c *ast.CallExpr, w Value, data Value, st *State) []
 	newOut := sx("cat", sx("select", ho, key), sx("bseq", arr, off, e.add(off, ln)))
 	e.heapSet(st, "W_out", outS, sx("store", ho, key, ite(failed, sx("select", ho, key), newOut)))
 	e.heapSet(st, "W_failed", fs, sx("store", hf, key, failed))
+	he := e.heapGet(st, "W_err", "(Array Int Ifc)")
+	e.heapSet(st, "W_err", "(Array Int Ifc)", sx("store", he, key, ite(failed, errv.T, sx("select", he, key))))
 	st.vars[lastWriteErr] = errv
 	return []Value{n, errv}
 }
 
 var lastWriteErr = &synth{"lastWriteErr"}
+
+// infallibleWriter: the value is statically known to be a *strings.Builder or *bytes.Buffer, whose writes never fail.
+func (e *Engine) infallibleWriter(w Value) bool {
+	isBuf := func(s string) bool {
+		return strings.Contains(s, "Pstrings_Builder") || strings.Contains(s, "Pbytes_Buffer")
+	}
+	if ts := types.TypeString(w.Typ, nil); ts == "*strings.Builder" || ts == "*bytes.Buffer" {
+		return true
+	}
+	if strings.HasPrefix(w.T, "(mk-ifc ") {
+		a := splitArgs(w.T[8 : len(w.T)-1])
+		if len(a) == 2 && strings.HasPrefix(a[1], "(box_") && isBuf(strings.SplitN(a[1], " ", 2)[0]) {
+			return true
+		}
+	}
+	return false
+}
+
+// writerKey identifies the abstract writer behind a value (interface payload or pointer).
+func (e *Engine) writerKey(w Value) string {
+	if e.infallibleWriter(w) {
+		// builders and buffers never fail; they share one ghost key outside the range of interface payloads (>= 0)
+		return "(- 1)"
+	}
+	if _, ok := types.Unalias(w.Typ).Underlying().(*types.Interface); ok {
+		return sx("i_val", w.T)
+	}
+	return w.T
+}
 
 func (e *Engine) declareWriterTheory() {
 	if e.declared["BSeq"] {
